@@ -8,6 +8,7 @@ K05a/K05b (engine K, Kani): `Expression::sub_expressions()` yields every child o
 `convert_scopes` relies on), and `convert_scopes` on a leaf picks the innermost matching scope.
 """
 import json
+import os
 import time
 import z3
 
@@ -140,6 +141,22 @@ def programs(tier):
                 b.view(sites=[b.site(('mem', I('m'), 'f'))]),
                 b.tdef('t', children=[b.view(sites=[b.site(('mem', I('m'), 'f')), b.site(I('item')), b.site(I('index')), b.site(I('v'))])]),
                 b.for_(I('list'), children=[b.tuse('t', ('obj', [('kv', 'item', L('int', '5', 5))]))])])
+    # a module declared *after* the template definition that uses it is still visible there (modules are file-wide)
+    b = B()
+    add('wxs declared after the template definition', [
+        b.tdef('t', children=[b.view(sites=[b.site(('mem', I('m'), 'f')), b.site(I('m')), b.site(I('item'))])]),
+        b.view(sites=[b.site(('mem', I('m'), 'f'))]),
+        b.wxs('m'),
+        b.for_(I('list'), children=[b.tuse('t', ('obj', [('kv', 'item', L('int', '5', 5)), ('kv', 'm', L('int', '6', 6))]))]),
+        b.view(sites=[b.site(('mem', I('m'), 'f'))])])
+    # sibling elements that list the same slot values in different orders: each element's own order counts
+    for tag in ('view', 'block'):
+        b = B()
+        add('slot values in different orders on siblings (<%s>)' % tag, [
+            b.comp(children=[b.slotted(['v', 'w'], tag=tag, sites=([b.site(I('v'))] if tag == 'view' else []), children=[b.view(sites=[b.site(I('v')), b.site(I('w'))])]),
+                             b.slotted(['w', 'v'], tag=tag, sites=([b.site(I('v')), b.site(I('w'))] if tag == 'view' else []), children=[b.view(sites=[b.site(I('v')), b.site(I('w'))])]),
+                             b.slotted(['w'], tag=tag, children=[b.view(sites=[b.site(I('v')), b.site(I('w'))])])]),
+            b.view(sites=[b.site(I('v')), b.site(I('w'))])])
     b = B()
     add('template name body sees no outer scopes', [
         b.for_(I('list'), children=[b.comp(children=[b.slotted(['v'], children=[b.tuse('t', ('obj', [('short', 'item'), ('kv', 'q', I('v'))]))])])]),
@@ -363,6 +380,9 @@ def check_program(p, cmp_):
 
 
 def kani_part(res, tier):
+    if os.environ.get('VERIF_DEV_SKIP_KANI'):     # development aid only (never set by the registered commands): makes the run inconclusive
+        res.inconc('Kani part skipped (VERIF_DEV_SKIP_KANI)')
+        return
     try:
         from kani import runner
     except ImportError:
